@@ -232,12 +232,16 @@ def _observe(S, label, problems):
             problems.append("%s: %s(3) is recomputed on every call after a successful write (memoization never recovers)" % (label, name))
 
 
-def run_scenario(S, at, fault):
-    """Memoize f(3) with the fault at primitive number `at`; then continue / restart and observe.  Returns (fired, problems, log)."""
+def run_scenario(S, at, fault, prior=False):
+    """Memoize f(3) with the fault at primitive number `at` (prior: after g(3), which produces the same result, was memoized cleanly);
+    then continue / restart and observe.  Returns (fired, problems, log)."""
     store = tempfile.mkdtemp(prefix="c08rp_")
     problems = []
     try:
         _set_env(S, store)
+        if prior:
+            S["g"](3)
+            _set_env(S, store)
         fs = FaultFS(os.path.join(store, "data"), at, fault)
         crashed = False
         with fs:
@@ -267,15 +271,18 @@ def run_scenario(S, at, fault):
 def enumerate_faults(repo, first=None):
     """All (primitive, outcome) faults of one memoization; `first` = (primitive name, outcome kind) is tried before the others."""
     S = _setup(repo)
-    _, _, log = run_scenario(S, None, None)
-    plan = [(n, name, flt) for (n, name, _p) in log for flt in FAULTS[name]]
-    if first:
-        plan.sort(key=lambda x: 0 if (x[1] == first[0] and x[2][0] == first[1]) else 1)
-    out = []
-    for n, name, flt in plan:
-        fired, problems, _ = run_scenario(S, n, flt)
-        out.append({"primitive": n, "name": name, "path": fired[2] if fired else None, "fault": list(flt), "problems": problems})
-    return log, out
+    out, logs = [], []
+    for prior in (False, True):
+        _, _, log = run_scenario(S, None, None, prior)
+        logs.append(log)
+        plan = [(n, name, flt) for (n, name, _p) in log for flt in FAULTS[name]]
+        if first:
+            plan.sort(key=lambda x: 0 if (x[1] == first[0] and x[2][0] == first[1]) else 1)
+        for n, name, flt in plan:
+            fired, problems, _ = run_scenario(S, n, flt, prior)
+            out.append({"scenario": "g(3) memoized cleanly, then f(3) faulted" if prior else "f(3) faulted on an empty store", "primitive": n, "name": name,
+                        "path": fired[2] if fired else None, "fault": list(flt), "problems": problems})
+    return logs[0] + logs[1], out
 
 
 def crash_replay(rp):
@@ -289,11 +296,11 @@ def crash_replay(rp):
             first = (prim, "crash" if mo.group(2) == "returned" else "error")
     log, res = enumerate_faults(repo, first)
     bad = [r for r in res if r["problems"]]
-    tried = "%d faults over %d primitives of one memoization (%s)" % (len(res), len(log), ", ".join("%d:%s %s" % x for x in log))
+    tried = "%d faults over %d primitives of two memoization scenarios (%s)" % (len(res), len(log), ", ".join("%d:%s" % x[:2] for x in log))
     if bad:
         b = bad[0]
         return {"reproduced": True,
-                "detail": "fault %s at primitive #%d %s(%s) of memoizing f(3): %s" % ("/".join(b["fault"]), b["primitive"], b["name"], b["path"], "; ".join(b["problems"][:4])),
+                "detail": "%s: fault %s at primitive #%d %s(%s): %s" % (b["scenario"], "/".join(b["fault"]), b["primitive"], b["name"], b["path"], "; ".join(b["problems"][:4])),
                 "failing_history": b, "other_failing_faults": len(bad) - 1, "explored": tried,
                 "named_by_obligation": first, "matches_obligation_step": bool(first and b["name"] == first[0] and b["fault"][0] == first[1])}
     return {"reproduced": False, "detail": "no fault at any primitive of a memoization reproduces a violation on the real code", "explored": tried, "named_by_obligation": first}
